@@ -85,10 +85,10 @@ def check(tid, tier='quick', all_props=False):
             out_dir = os.path.join(WORK, f'out_{tid}_{p}')
             env = dict(os.environ, VERIF_REPO=wt, VERIF_OUT=out_dir, VERIF_NO_SELFTEST='1')
             try:
-            r = sh([os.path.join(VERIF, 'check'), p, '--tier', tier], env=env, timeout=900)
-        except subprocess.TimeoutExpired:
-            import types
-            r = types.SimpleNamespace(returncode=2, stdout=f'ANALYSIS-ERROR the check of {p} did not finish within 900 s', stderr='')
+                r = sh([os.path.join(VERIF, 'check'), p, '--tier', tier], env=env, timeout=900)
+            except subprocess.TimeoutExpired:
+                import types
+                r = types.SimpleNamespace(returncode=2, stdout=f'ANALYSIS-ERROR the check of {p} did not finish within 900 s', stderr='')
             finds = [ln for ln in r.stdout.splitlines() if ln.startswith(('FINDING', 'ANALYSIS-ERROR'))]
             shutil.rmtree(out_dir, ignore_errors=True)
             if r.returncode == 1:
